@@ -158,6 +158,20 @@ func ruleIMM2(c *Ctx) []Ob {
 							o.add(VIOLATED, c.fname(fn)+"/store global "+g.Name(), relPath(c, x.Pos()), "package-level variable %s is written at run time: shared mutable state without synchronisation", g.Name())
 						}
 					}
+				case *ssa.Call:
+					// package-level sync.Map / sync.Pool used as a cache
+					full := calleeFullName(x)
+					if strings.HasPrefix(full, "(*sync.Map).") || strings.HasPrefix(full, "(*sync.Pool).") {
+						if g, ok := x.Common().Args[0].(*ssa.Global); ok && g.Pkg != nil && c.LibPkgs[g.Pkg.Pkg.Path()] != nil {
+							m := full[strings.LastIndex(full, ".")+1:]
+							switch m {
+							case "Store", "LoadOrStore", "Swap", "CompareAndSwap", "Put", "Delete", "LoadAndDelete":
+								if !(fn.Name() == "init" || strings.HasPrefix(fn.Name(), "init#")) {
+									o.add(VIOLATED, c.fname(fn)+"/global "+g.Name()+" mutated through sync."+m, relPath(c, x.Pos()), "package-level %s is filled at run time (a process-wide cache): results now depend on what earlier calls put there - conversion is no longer a function of its input alone", g.Name())
+								}
+							}
+						}
+					}
 				case *ssa.MapUpdate:
 					if g := globalLoad(x.Map); g != nil && c.LibPkgs[g.Pkg.Pkg.Path()] != nil {
 						if !(fn.Name() == "init" || strings.HasPrefix(fn.Name(), "init#")) {
